@@ -62,6 +62,8 @@ def strategy_case(draw):
         e = draw(st.sampled_from(["zero", "tiny", "log", "log", "log"]))
         case["eps"] = 0.0 if e == "zero" else (1e-14 if e == "tiny" else 10 ** draw(st.floats(-10, math.log10(0.5))))
     case["scramble"] = draw(st.sampled_from([0, 0, 1, 1e2, 1e4, 1e6]))
+    case["scale_exp"] = draw(st.sampled_from([0, 0, 0, -6, -3, 3, 6]))
+    case["scale_core"] = draw(st.integers(0, 6))
     case["rescale"] = draw(st.booleans())
     rk = draw(st.sampled_from(["default", "default", "int", "list"]))
     if rk == "int":
@@ -198,6 +200,9 @@ def build(case):
         for k in range(0, d - 1, 2):
             cores[k] = cores[k] * 1e3
             cores[k + 1] = cores[k + 1] * 1e-3
+    if case.get("scale_exp", 0):
+        k = case["scale_core"] % d
+        cores[k] = cores[k] * (10.0 ** case["scale_exp"])
     cores = [c.to(DT[dt]).contiguous() for c in cores]
     return cores, ub, eps
 
@@ -215,6 +220,8 @@ def execute(case):
         ck.label("operator")
     if case["rescale"]:
         ck.label("rescaled")
+    if case.get("scale_exp", 0):
+        ck.label("scaled:1e%d" % case["scale_exp"])
     ref = dense(cores)
     nref = fro(ref)
     prodn = 1.0
